@@ -126,14 +126,30 @@ func (b *builderOptions) Build() (*Biscuit, error) {
 	if v := b.rootKeyID; v != nil {
 		opts = append(opts, WithRootKeyID(*v))
 	}
+
+	// the token gets its own copies: content added to the builder later must not
+	// reach a token already built, and the builder keeps its symbols so that it
+	// can be filled further and built again
+	baseSymbols := b.symbols.Clone()
+	blockSymbols := baseSymbols.SplitOff(b.symbolsStart)
+
+	facts := make(datalog.FactSet, len(*b.facts))
+	copy(facts, *b.facts)
+
+	rules := make([]datalog.Rule, len(b.rules))
+	copy(rules, b.rules)
+
+	checks := make([]datalog.Check, len(b.checks))
+	copy(checks, b.checks)
+
 	return newBiscuit(
 		b.rootKey,
-		b.symbols,
+		baseSymbols,
 		&Block{
-			symbols: b.symbols.SplitOff(b.symbolsStart),
-			facts:   b.facts,
-			rules:   b.rules,
-			checks:  b.checks,
+			symbols: blockSymbols,
+			facts:   &facts,
+			rules:   rules,
+			checks:  checks,
 			context: b.context,
 			version: MaxSchemaVersion,
 		},
